@@ -326,6 +326,10 @@ func buildBody(pt reflect.Type, fs []ieSpec) (reflect.Value, bool) {
 			}
 		} else if x := f.FieldByName("Buffer"); x.IsValid() {
 			x.SetBytes(append([]byte{}, s.data...))
+			if len(s.data) == 0 && (len(s.name)+int(s.iei))%2 == 0 {
+				// a zero-length element as a constructor leaves it: Buffer nil, not an empty slice (half of them, chosen by name)
+				x.Set(reflect.Zero(x.Type()))
+			}
 		} else if len(s.data) != 0 {
 			return body, false
 		}
